@@ -95,6 +95,8 @@ func (o *Operations) Move(from string, to string) error {
 			return err
 		}
 
+		// The header might come from a foreign archive in another format, which can't hold the STFS records
+		hdr.Format = tar.FormatPAX
 		hdr.Size = 0 // Don't try to seek after the record
 		hdr.Name = path.Join(to, strings.TrimPrefix(strings.TrimPrefix(dbhdr.Name, "/"), strings.TrimPrefix(from, "/")))
 		if hdr.FileInfo().Mode().IsRegular() {
